@@ -21,3 +21,4 @@ for m in missing: print('MISSING',m)
 sys.exit(1 if missing else 0)
 PY
 git -C /repo clean -fdq kernel/mock
+git -C /repo checkout -- kernel/mock
